@@ -122,6 +122,9 @@ fn mutations(kind: Kind) -> &'static [(&'static str, &'static str)] {
             ("setitem", "y[0] = 9"),
             ("iadd", "y += [4]"),
             ("setitem_aug", "y[0] = [y[0]]"),
+            // the argument is the container itself
+            ("extend_self", "y.extend(y)"),
+            ("iadd_self", "y += y"),
         ],
         Kind::Dict => &[
             ("setitem_new", "y[\"zz\"] = 40"),
@@ -133,8 +136,10 @@ fn mutations(kind: Kind) -> &'static [(&'static str, &'static str)] {
             ("update_kw", "y.update(zz = 1)"),
             ("clear", "y.clear()"),
             ("ior", "y |= {\"zz\": 40}"),
+            ("ior_self", "y |= y"),
+            ("update_self", "y.update(y)"),
         ],
-        Kind::Set => &[("add", "y.add(\"zz\")"), ("remove", "y.remove(list(y)[0])"), ("discard", "y.discard(list(y)[0])"), ("pop", "y.pop()"), ("clear", "y.clear()"), ("update", "y.update([\"zz\"])")],
+        Kind::Set => &[("add", "y.add(\"zz\")"), ("remove", "y.remove(list(y)[0])"), ("discard", "y.discard(list(y)[0])"), ("pop", "y.pop()"), ("clear", "y.clear()"), ("update", "y.update([\"zz\"])"), ("update_self", "y.update(y)")],
         Kind::Tuple => &[("setitem", "y[0] = 9")],
         Kind::Struct => &[("setattr", "y.f0 = 9"), ("setattr_new", "y.newfield = 1")],
         Kind::Record => &[("setattr", "y.a = 9")],
